@@ -142,7 +142,7 @@ instance (c : Clause) : Decidable (WfClause c) := by
 /-- a stored server as the listing sees it -/
 structure Server where
   status : Nat
-  refreshedAt : GoTime
+  refreshedAt : FTime
   info : Info
 
 /-- "carries the status the frontend requires, was last refreshed no earlier than now minus the
